@@ -119,6 +119,49 @@ def h_sim(cx, stations, station_of, H, battery, L, period, bounds_only=False, es
     cx.check("rates_beyond_end_are_zero", all(not (bool(x != 0)) for x in rates[:, n:].ravel()) if rates.shape[1] > n else True)
 
 
+def h_stochastic(cx, n_st, n_sess, H):
+    """the ledger on a network whose post_charging_update hook changes occupancy (StochasticNetwork with early departure: a
+    satisfied EV is swapped for a waiting one at the end of the period in which it was charged)"""
+    env.install(cx)
+    import acnportal.contrib.acnsim.network.stochastic_network as SN
+    from props import C19
+
+    A = acn()
+    choices = C19.Choices(cx)
+    cx.patch(SN, "random", choices, sym_only=False)
+    times = sym_times(cx, n_sess, H, station_of=list(range(n_sess)))
+    for i in range(n_sess - 1):
+        cx.assume(le(times[i][0], times[i + 1][0]))
+    reqs = [cx.real("req%d" % i, lo=0, lo_open=True, hi=20) for i in range(n_sess)]
+    sim, net, rec, evs = C19.run_once(cx, n_st, n_sess, H, True, times, reqs, choices, {}, "scripted")
+    cx.tag("terminated")
+    n = sim.iteration
+    rates = sim.charging_rates
+    ids = list(net.station_ids)
+    periods = [st for st in rec if st["kind"] == "period"]
+    cx.check("one_record_per_period", [st["t"] for st in periods] == list(range(n)))
+    if [st["t"] for st in periods] != list(range(n)):
+        return
+    if any(st["early"] > 0 for st in periods):
+        cx.tag("early_departure_swap")
+    for ev in evs:
+        e = 0
+        for st in periods:
+            for r, sid in enumerate(ids):
+                if st["before"][sid] == ev.session_id:
+                    e = e + rates[r, st["t"]] * 208 / 1000 * (60 / 60)
+        cx.check("stochastic:energy=sum(rate*V*T)", eq(ev.energy_delivered, e))
+        bd = ev._battery._to_dict()[0]
+        cx.check("stochastic:energy=battery_gain", eq(bd["_current_charge"] - bd["_init_charge"], ev.energy_delivered))
+    for st in periods:
+        for r, sid in enumerate(ids):
+            if st["before"][sid] is None:
+                cx.check("stochastic:rate_zero_when_vacant", eq(rates[r, st["t"]], 0))
+    ap = A.aggregate_power(sim)
+    cx.check("stochastic:total_energy=integral_of_power", eq(A.total_energy_delivered(sim), sym_sum([ap[t] * 1 for t in range(n)])))
+    cx.observe("energies", [ev.energy_delivered for ev in evs])
+
+
 def h_reload(cx, H, battery, period, finish_first):
     """the ledger also holds on a simulator that was written with the public to_json() and read back with from_json() (finished,
     or saved before the end and finished after loading): judged through the LABELLED views only - charging_rates_as_df()
@@ -214,6 +257,11 @@ def jobs(tier):
                           bounds=dict(step="one set_pilot from an arbitrary state satisfying the ledger invariant; all parameters symbolic"),
                           approx=(kind == "continuous"), cost=5))
     js.extend(sim_jobs(tier))
+    for n_st, n_sess, H in ([(1, 2, 3)] if tier == "quick" else [(1, 2, 4), (2, 3, 3), (1, 3, 3)]):
+        js.append(Job("stochastic[st=%d,sess=%d,H=%d]" % (n_st, n_sess, H), h_stochastic, dict(n_st=n_st, n_sess=n_sess, H=H), functions=FUNCS + [
+            "acnportal.contrib.acnsim.network.stochastic_network.StochasticNetwork.plugin/unplug/post_charging_update", "acnportal.acnsim.simulator.Simulator.run (order of _store_actual_charging_rates and post_charging_update)"],
+            expect_tags=("terminated", "early_departure_swap"), max_paths=60000, timeout=3000,
+            bounds=dict(stations=n_st, sessions=n_sess, horizon=H, network="StochasticNetwork(early_departure=True), every choice of free station", period_min=60), cost=300))
     for H, bat, per, fin in ([(3, "ideal", 5, True), (3, "ideal", 60, False)] if tier == "quick" else [(4, "ideal", 5, True), (4, "stepwise", 60, False), (3, "stepwise", 1, True), (4, "ideal", 15, False)]):
         js.append(Job("reload[H=%d,%s,T=%d,%s]" % (H, bat, per, "finished" if fin else "saved_mid_run"), h_reload, dict(H=H, battery=bat, period=per, finish_first=fin), functions=FUNCS + [
             "acnportal.acnsim.base.BaseSimObj.to_json/from_json", "acnportal.acnsim.simulator.Simulator._to_dict/_from_dict/update_scheduler/charging_rates_as_df", "acnportal.acnsim.network.charging_network.ChargingNetwork._to_dict/_from_dict/voltages"],
